@@ -76,7 +76,10 @@ def run_triglib(ctx):
     if ctx.thorough():
         ctx.tlc_mc("MC_TrigLib.tla", "TrigLib_quick2.cfg", timeout=900)
         ctx.tlc_mc("MC_TrigLib.tla", "TrigLib_quick3.cfg", timeout=900)
-        ctx.tlc_mc("MC_TrigLib.tla", "TrigLib_thorough.cfg", timeout=2400)
+        ctx.tlc_mc("MC_TrigLib.tla", "TrigLib_thorough.cfg", timeout=1200)
+        ctx.tlc_mc("MC_TrigLib.tla", "TrigLib_thorough2.cfg", timeout=1200)
+        # (TrigLib_big.cfg = 2 tables x 2 libraries x 2 versions x disable depth 1: 12.6 M states, 5 min
+        #  with 12 workers, checked by hand when the spec was written; too slow for the thorough budget)
     # anti-vacuity: SetNoDef that leaves g.cleared alone (the next UnloadAll returns early)
     # must break the promise in the model; thorough: the other deviations as well
     devs = ["setnodef"]
